@@ -5,7 +5,7 @@ CONSTANTS
   SubOpts <- OptErr
   AutoOpts <- AutoNone
   RVs <- RVall
-  UnsubModes = {"handlerT", "pair"}
+  UnsubModes = {}
   BulkModes = {}
   BulkLens = {}
   WithClear = FALSE
@@ -15,7 +15,7 @@ CONSTANTS
   SubTypes <- TAU
   MaxSubs = 2
   MaxRaises = 2
-  MaxUnsubs = 1
+  MaxUnsubs = 0
   MaxDepth = 2
   MaxOps = 1
   WithDrop = FALSE
